@@ -239,7 +239,7 @@ func writeEvidence(verifDir string, r *Result, v Verdict, m evidenceMeta) (strin
 		knownList = append(knownList, map[string]any{"key": ob.Key, "pos": ob.Pos, "what": v.KnownWhat[ob.Key]})
 	}
 	cov := map[string]any{
-		"explanation": "Static analysis of /repo's current source (type-checked AST + go/ssa + dominators + VTA call graph, module-restricted); nothing in /repo is executed. Each obligation is one rule instance (rule|construct) decided for every path / caller the rule quantifies over. Rules: " + strings.Join(expl, " || "),
+		"explanation":          "Static analysis of /repo's current source (type-checked AST + go/ssa + dominators + VTA call graph, module-restricted); nothing in /repo is executed. Each obligation is one rule instance (rule|construct) decided for every path / caller the rule quantifies over. Rules: " + strings.Join(expl, " || "),
 		"obligations":          total,
 		"discharged":           ok,
 		"evaluations":          total,
